@@ -722,6 +722,23 @@ func runVacuum(c *Case, id string) {
 			fail("second-vacuum-changes-bucket", "repeating the same vacuum changed the bucket listing: "+d)
 			return
 		}
+		// more writes through the same handle (nothing to purge), then the same vacuum once more: what those
+		// writes superseded was superseded before the cutoff (a cutoff after everything), so it goes too
+		if cutNanos > tnanos(vclock+50) && c.Res.Status != "violated" {
+			if stmt(0, "ins", 9600+c.Index, map[string]string{"a": "t:more"}) && stmt(0, "upd", 9600+c.Index, map[string]string{"b": "t:more2"}) {
+				res, err := A.conn.Rows("select vacuum_error from s3db_vacuum('"+A.table+"', ?)", tstr(cutoff))
+				w.logf("w0 two more writes; THE SAME VACUUM again -> %v %v", res, err)
+				c.Count("vacuums_again_after_more_writes", 1)
+				if err != nil || len(res) != 1 || res[0] != "NULL" {
+					fail("vacuum-error", fmt.Sprintf("%v %v", res, err))
+					return
+				}
+				if left := walk.VersionNames(w.st.Snapshot(), base, "merged"); len(left) > 0 {
+					fail("version-not-reclaimed:after-more-writes", fmt.Sprintf("after two more writes through the vacuuming connection the same vacuum (cutoff %s, after everything) leaves %d superseded versions under root/merged (first: %s)", tstr(cutoff), len(left), left[0]))
+					return
+				}
+			}
+		}
 		// a vacuum that failed at one request and is then repeated undisturbed: the repetition succeeds and
 		// finishes the job - of the node objects the pre-vacuum versions used, none is left that no listed
 		// version reaches any more (such an object can never be reclaimed)
